@@ -65,6 +65,17 @@ def real(case):
     for g, xs in groups(case).items():
         p = muxprop.quiet(muxreal.run_plain, case['term'], xs)
         r['plain'][str(g)] = muxreal.trunc_chunks(p['chunks'])
+    # the property's precondition: first / last / mean(reduce) are not applied to an empty sequence.  A trailing take(0)/first
+    # can mask the resulting error on the plain path only (it never subscribes upstream), so the precondition is evaluated on
+    # the plain run of every PREFIX of the pipeline that ends right before such a stage.
+    r['empty_input'] = False
+    for i, st in enumerate(case['term']):
+        if st[0] in ('first', 'last') or (st[0] in ('mean', 'variance', 'stddev', 'fvariance', 'fstddev') and st[-1] is True):
+            for g, xs in groups(case).items():
+                p = muxprop.quiet(muxreal.run_plain, case['term'][:i], xs)
+                ch = muxreal.trunc_chunks(p['chunks'])
+                if muxprop.has_fatal(ch) or not muxprop.items_of(ch):
+                    r['empty_input'] = True
     return r
 
 
@@ -115,6 +126,8 @@ def oracle(case, r):
         if it['t'][0] not in order:
             order.append(it['t'][0])
     mux_fatal = muxprop.has_fatal(r['chunks'])
+    if r.get('empty_input'):
+        return 'precondition-not-met'    # first / last / mean(reduce) applied to an empty sequence (possibly masked on the plain path)
     if any(muxprop.has_fatal(pl) for pl in r['plain'].values()):
         return 'precondition-not-met'    # some group makes the plain pipeline raise (e.g. first/last/mean on an empty sequence)
     for g, (head_items, outs) in zip(order, go):
